@@ -82,6 +82,9 @@ func b64(s string) string { return base64.StdEncoding.EncodeToString([]byte(s)) 
 // file that carries the given tag.  TLC prints PrintT values as TLA+ strings:
 // "TAG {...}" with the quotes and backslash escapes.
 func forEachTagged(path, tag string, f func(payload []byte)) int {
+	if path == "" {
+		return 0 // an empty list of files (nothing was recorded, e.g. the run was aborted at a hang)
+	}
 	fh, err := os.Open(path)
 	if err != nil {
 		fatal(err)
